@@ -157,7 +157,7 @@ func c14World(rc *kernel.RunCtx) {
 		m := t.Range(1, rc.Param("max_renders", 4), "nrenders")
 		for j := 0; j < m; j++ {
 			r := &c14render{Spec: t.Choose(nspec, "spec"), FailAt: -1}
-			r.Kind = []string{"render", "render", "shared", "http", "mw"}[t.Choose(5, "kind")]
+			r.Kind = []string{"render", "render", "shared", "http", "mw", "httpfail"}[t.Choose(6, "kind")]
 			if faultsLeft > 0 && r.Kind == "render" && t.Chance(1, 3, "faulty") {
 				faultsLeft--
 				if t.Bool("fault-writer") && len(docs[r.Spec]) > 0 {
@@ -189,6 +189,12 @@ func c14World(rc *kernel.RunCtx) {
 				case "http":
 					rec := newRecorder()
 					templ.Handler(shared[r.Spec]).ServeHTTP(parkRecorder{rec, park}, httptest.NewRequest(http.MethodGet, "/", nil))
+					r.got, r.status = rec.body.Bytes(), rec.status
+				case "httpfail":
+					// a request whose component fails after writing part of the document
+					rec := newRecorder()
+					failing := templ.Join(shared[r.Spec], templ.ComponentFunc(func(context.Context, io.Writer) error { return errChunk }))
+					templ.Handler(failing).ServeHTTP(parkRecorder{rec, park}, httptest.NewRequest(http.MethodGet, "/", nil))
 					r.got, r.status = rec.body.Bytes(), rec.status
 				case "mw":
 					rec := newRecorder()
@@ -244,6 +250,13 @@ func c14World(rc *kernel.RunCtx) {
 				} else if !isPrefix(r.got, D) {
 					rc.Fail("C14/faulted-render-not-prefix", "%s: got %q", what, kernel.Short(string(r.got), 200))
 				}
+				continue
+			}
+			if r.Kind == "httpfail" {
+				if r.status != http.StatusInternalServerError || (len(D) >= 12 && containsDocPiece(r.got, D)) {
+					rc.Fail("C14/concurrent-handler-failed", "%s: failing request answered with status %d body %q", what, r.status, kernel.Short(string(r.got), 200))
+				}
+				k.Count("fault_request_with_failing_component", 1)
 				continue
 			}
 			if (r.Kind == "http" || r.Kind == "mw") && r.status != http.StatusOK {
